@@ -406,10 +406,10 @@ impl Scenario for SrvFaultSim {
                 let log = Arc::new(Mutex::new(HandlerLog::default()));
                 let mut plans = BTreeMap::new();
                 for id in 1u32..=20 {
-                    plans.insert(id, HandlerPlan { delay_ms: id as u64 % 3, resp_len: 500, resp_chunk: 100, resp_delay_ms: 0, fail: false, upgrade: false, redirect: None });
+                    plans.insert(id, HandlerPlan { delay_ms: id as u64 % 3, resp_len: 500, resp_chunk: 100, resp_delay_ms: 0, fail: false, upgrade: false, redirect: None, resp_trailers: false });
                 }
-                plans.insert(903, HandlerPlan { delay_ms: 0, resp_len: 60000, resp_chunk: 1000, resp_delay_ms: 1, fail: false, upgrade: false, redirect: None });
-                plans.insert(904, HandlerPlan { delay_ms: 1, resp_len: 5, resp_chunk: 5, resp_delay_ms: 0, fail: true, upgrade: false, redirect: None });
+                plans.insert(903, HandlerPlan { delay_ms: 0, resp_len: 60000, resp_chunk: 1000, resp_delay_ms: 1, fail: false, upgrade: false, redirect: None, resp_trailers: false });
+                plans.insert(904, HandlerPlan { delay_ms: 1, resp_len: 5, resp_chunk: 5, resp_delay_ms: 0, fail: true, upgrade: false, redirect: None, resp_trailers: false });
                 let plans = Arc::new(plans);
                 let ctx = HandlerCtx { net: net.clone(), log: log.clone(), plans: plans.clone(), origin: "http://srv.test".into() };
                 let tls_cfg = if case.tls { Some(tlsfix::server_config(tlsfix::CertKind::Good, &[])) } else { None };
